@@ -124,17 +124,17 @@ namespace nmtools::meta
             } else if constexpr (is_fixed_index_array_v<shape_t> && is_constant_index_v<nd_t>) {
                 constexpr auto nd  = nd_t::value;
                 constexpr auto dim = len_v<shape_t>;
-                using index_t = get_element_or_common_type_t<shape_t>;
+                using index_t = get_index_element_type_t<shape_t>; // (the plain index type: a clipped element type would clamp the shifted extents)
                 // TODO: use resize instead
                 return as_value_v<nmtools_array<index_t,(dim > nd ? dim : nd)>>;
             } else if constexpr (is_hybrid_index_array_v<shape_t> && is_constant_index_v<nd_t> ) {
                 constexpr auto nd = nd_t::value;
                 constexpr auto max_dim = bounded_size_v<shape_t>;
-                using index_t = get_element_or_common_type_t<shape_t>;
+                using index_t = get_index_element_type_t<shape_t>; // (the plain index type: a clipped element type would clamp the shifted extents)
                 // TODO: use resize instead
                 return as_value_v<array::static_vector<index_t,(max_dim > nd ? max_dim : nd)>>;
             } else if constexpr (is_index_array_v<shape_t>) {
-                using index_t = get_element_or_common_type_t<shape_t>;
+                using index_t = get_index_element_type_t<shape_t>; // (the plain index type: a clipped element type would clamp the shifted extents)
                 // TODO: support small_vector/small_buffer
                 return as_value_v<nmtools_list<index_t>>;
             } else if constexpr (is_none_v<shape_t> && is_constant_index_v<nd_t>) {
